@@ -136,12 +136,12 @@ func (p *printer) printFile(file *ast.File) error {
 
 				switch s.Type.(type) {
 				case *ast.StructType:
-					p.declStructType(s)
+					p.declStructType(d.Pos(), s)
 				case *ast.InterfaceType:
-					p.declInterfaceType(s)
+					p.declInterfaceType(d.Pos(), s)
 				default:
 					if s.Assign.IsValid() {
-						p.declTypeAssign(s)
+						p.declTypeAssign(d.Pos(), s)
 					} else {
 						panic("unreachable")
 					}
